@@ -18,140 +18,149 @@ No network was available: this file is the independent statement the regenerated
 namespace PolyVerif.Spec.Ncbi
 open PolyVerif
 
+/-- `c!"TTT"` is the letter list `['T', 'T', 'T']` (expanded when the file is elaborated, so that the kernel
+never has to decode a string literal) -/
+macro "c!" s:str : term => do
+  let cs := s.getString.toList.map fun c => Lean.Syntax.mkCharLit c
+  `([$(cs.toArray),*])
+
 /-- translation table 1, by amino acid ('*' = termination) -/
-def standard : List (Char × List String) := [
-  ('F', ["TTT", "TTC"]),
-  ('L', ["TTA", "TTG", "CTT", "CTC", "CTA", "CTG"]),
-  ('I', ["ATT", "ATC", "ATA"]),
-  ('M', ["ATG"]),
-  ('V', ["GTT", "GTC", "GTA", "GTG"]),
-  ('S', ["TCT", "TCC", "TCA", "TCG", "AGT", "AGC"]),
-  ('P', ["CCT", "CCC", "CCA", "CCG"]),
-  ('T', ["ACT", "ACC", "ACA", "ACG"]),
-  ('A', ["GCT", "GCC", "GCA", "GCG"]),
-  ('Y', ["TAT", "TAC"]),
-  ('H', ["CAT", "CAC"]),
-  ('Q', ["CAA", "CAG"]),
-  ('N', ["AAT", "AAC"]),
-  ('K', ["AAA", "AAG"]),
-  ('D', ["GAT", "GAC"]),
-  ('E', ["GAA", "GAG"]),
-  ('C', ["TGT", "TGC"]),
-  ('W', ["TGG"]),
-  ('R', ["CGT", "CGC", "CGA", "CGG", "AGA", "AGG"]),
-  ('G', ["GGT", "GGC", "GGA", "GGG"]),
-  ('*', ["TAA", "TAG", "TGA"])]
+def standard : List (Char × List (List Char)) := [
+  ('F', [c!"TTT", c!"TTC"]),
+  ('L', [c!"TTA", c!"TTG", c!"CTT", c!"CTC", c!"CTA", c!"CTG"]),
+  ('I', [c!"ATT", c!"ATC", c!"ATA"]),
+  ('M', [c!"ATG"]),
+  ('V', [c!"GTT", c!"GTC", c!"GTA", c!"GTG"]),
+  ('S', [c!"TCT", c!"TCC", c!"TCA", c!"TCG", c!"AGT", c!"AGC"]),
+  ('P', [c!"CCT", c!"CCC", c!"CCA", c!"CCG"]),
+  ('T', [c!"ACT", c!"ACC", c!"ACA", c!"ACG"]),
+  ('A', [c!"GCT", c!"GCC", c!"GCA", c!"GCG"]),
+  ('Y', [c!"TAT", c!"TAC"]),
+  ('H', [c!"CAT", c!"CAC"]),
+  ('Q', [c!"CAA", c!"CAG"]),
+  ('N', [c!"AAT", c!"AAC"]),
+  ('K', [c!"AAA", c!"AAG"]),
+  ('D', [c!"GAT", c!"GAC"]),
+  ('E', [c!"GAA", c!"GAG"]),
+  ('C', [c!"TGT", c!"TGC"]),
+  ('W', [c!"TGG"]),
+  ('R', [c!"CGT", c!"CGC", c!"CGA", c!"CGG", c!"AGA", c!"AGG"]),
+  ('G', [c!"GGT", c!"GGC", c!"GGA", c!"GGG"]),
+  ('*', [c!"TAA", c!"TAG", c!"TGA"])]
 
 structure Code where
   id : Nat
   name : String
   /-- differences from the standard code -/
-  reassigned : List (String × Char)
-  starts : List String
-  stops : List String
+  reassigned : List (List Char × Char)
+  starts : List (List Char)
+  stops : List (List Char)
 
 def codes : List Code := [
   { id := 1, name := "Standard",
     reassigned := [],
-    starts := ["ATG", "TTG", "CTG"], stops := ["TAA", "TAG", "TGA"] },
+    starts := [c!"ATG", c!"TTG", c!"CTG"], stops := [c!"TAA", c!"TAG", c!"TGA"] },
   { id := 2, name := "Vertebrate Mitochondrial",
-    reassigned := [("AGA", '*'), ("AGG", '*'), ("ATA", 'M'), ("TGA", 'W')],
-    starts := ["ATG", "ATA", "ATT", "ATC", "GTG"], stops := ["TAA", "TAG", "AGA", "AGG"] },
+    reassigned := [(c!"AGA", '*'), (c!"AGG", '*'), (c!"ATA", 'M'), (c!"TGA", 'W')],
+    starts := [c!"ATG", c!"ATA", c!"ATT", c!"ATC", c!"GTG"], stops := [c!"TAA", c!"TAG", c!"AGA", c!"AGG"] },
   { id := 3, name := "Yeast Mitochondrial",
-    reassigned := [("ATA", 'M'), ("CTT", 'T'), ("CTC", 'T'), ("CTA", 'T'), ("CTG", 'T'), ("TGA", 'W')],
-    starts := ["ATG", "ATA", "GTG"], stops := ["TAA", "TAG"] },
+    reassigned := [(c!"ATA", 'M'), (c!"CTT", 'T'), (c!"CTC", 'T'), (c!"CTA", 'T'), (c!"CTG", 'T'), (c!"TGA", 'W')],
+    starts := [c!"ATG", c!"ATA", c!"GTG"], stops := [c!"TAA", c!"TAG"] },
   { id := 4, name := "Mold, Protozoan, Coelenterate Mitochondrial; Mycoplasma; Spiroplasma",
-    reassigned := [("TGA", 'W')],
-    starts := ["ATG", "ATA", "ATT", "ATC", "GTG", "TTG", "TTA", "CTG"], stops := ["TAA", "TAG"] },
+    reassigned := [(c!"TGA", 'W')],
+    starts := [c!"ATG", c!"ATA", c!"ATT", c!"ATC", c!"GTG", c!"TTG", c!"TTA", c!"CTG"], stops := [c!"TAA", c!"TAG"] },
   { id := 5, name := "Invertebrate Mitochondrial",
-    reassigned := [("AGA", 'S'), ("AGG", 'S'), ("ATA", 'M'), ("TGA", 'W')],
-    starts := ["ATG", "ATA", "ATT", "ATC", "GTG", "TTG"], stops := ["TAA", "TAG"] },
+    reassigned := [(c!"AGA", 'S'), (c!"AGG", 'S'), (c!"ATA", 'M'), (c!"TGA", 'W')],
+    starts := [c!"ATG", c!"ATA", c!"ATT", c!"ATC", c!"GTG", c!"TTG"], stops := [c!"TAA", c!"TAG"] },
   { id := 6, name := "Ciliate, Dasycladacean and Hexamita Nuclear",
-    reassigned := [("TAA", 'Q'), ("TAG", 'Q')],
-    starts := ["ATG"], stops := ["TGA"] },
+    reassigned := [(c!"TAA", 'Q'), (c!"TAG", 'Q')],
+    starts := [c!"ATG"], stops := [c!"TGA"] },
   { id := 9, name := "Echinoderm and Flatworm Mitochondrial",
-    reassigned := [("AAA", 'N'), ("AGA", 'S'), ("AGG", 'S'), ("TGA", 'W')],
-    starts := ["ATG", "GTG"], stops := ["TAA", "TAG"] },
+    reassigned := [(c!"AAA", 'N'), (c!"AGA", 'S'), (c!"AGG", 'S'), (c!"TGA", 'W')],
+    starts := [c!"ATG", c!"GTG"], stops := [c!"TAA", c!"TAG"] },
   { id := 10, name := "Euplotid Nuclear",
-    reassigned := [("TGA", 'C')],
-    starts := ["ATG"], stops := ["TAA", "TAG"] },
+    reassigned := [(c!"TGA", 'C')],
+    starts := [c!"ATG"], stops := [c!"TAA", c!"TAG"] },
   { id := 11, name := "Bacterial, Archaeal and Plant Plastid",
     reassigned := [],
-    starts := ["ATG", "GTG", "TTG", "CTG", "ATT", "ATC", "ATA"], stops := ["TAA", "TAG", "TGA"] },
+    starts := [c!"ATG", c!"GTG", c!"TTG", c!"CTG", c!"ATT", c!"ATC", c!"ATA"], stops := [c!"TAA", c!"TAG", c!"TGA"] },
   { id := 12, name := "Alternative Yeast Nuclear",
-    reassigned := [("CTG", 'S')],
-    starts := ["ATG", "CTG"], stops := ["TAA", "TAG", "TGA"] },
+    reassigned := [(c!"CTG", 'S')],
+    starts := [c!"ATG", c!"CTG"], stops := [c!"TAA", c!"TAG", c!"TGA"] },
   { id := 13, name := "Ascidian Mitochondrial",
-    reassigned := [("AGA", 'G'), ("AGG", 'G'), ("ATA", 'M'), ("TGA", 'W')],
-    starts := ["ATG", "ATA", "GTG", "TTG"], stops := ["TAA", "TAG"] },
+    reassigned := [(c!"AGA", 'G'), (c!"AGG", 'G'), (c!"ATA", 'M'), (c!"TGA", 'W')],
+    starts := [c!"ATG", c!"ATA", c!"GTG", c!"TTG"], stops := [c!"TAA", c!"TAG"] },
   { id := 14, name := "Alternative Flatworm Mitochondrial",
-    reassigned := [("AAA", 'N'), ("AGA", 'S'), ("AGG", 'S'), ("TAA", 'Y'), ("TGA", 'W')],
-    starts := ["ATG"], stops := ["TAG"] },
+    reassigned := [(c!"AAA", 'N'), (c!"AGA", 'S'), (c!"AGG", 'S'), (c!"TAA", 'Y'), (c!"TGA", 'W')],
+    starts := [c!"ATG"], stops := [c!"TAG"] },
   { id := 16, name := "Chlorophycean Mitochondrial",
-    reassigned := [("TAG", 'L')],
-    starts := ["ATG"], stops := ["TAA", "TGA"] },
+    reassigned := [(c!"TAG", 'L')],
+    starts := [c!"ATG"], stops := [c!"TAA", c!"TGA"] },
   { id := 21, name := "Trematode Mitochondrial",
-    reassigned := [("TGA", 'W'), ("ATA", 'M'), ("AGA", 'S'), ("AGG", 'S'), ("AAA", 'N')],
-    starts := ["ATG", "GTG"], stops := ["TAA", "TAG"] },
+    reassigned := [(c!"TGA", 'W'), (c!"ATA", 'M'), (c!"AGA", 'S'), (c!"AGG", 'S'), (c!"AAA", 'N')],
+    starts := [c!"ATG", c!"GTG"], stops := [c!"TAA", c!"TAG"] },
   { id := 22, name := "Scenedesmus obliquus Mitochondrial",
-    reassigned := [("TCA", '*'), ("TAG", 'L')],
-    starts := ["ATG"], stops := ["TCA", "TAA", "TGA"] },
+    reassigned := [(c!"TCA", '*'), (c!"TAG", 'L')],
+    starts := [c!"ATG"], stops := [c!"TCA", c!"TAA", c!"TGA"] },
   { id := 23, name := "Thraustochytrium Mitochondrial",
-    reassigned := [("TTA", '*')],
-    starts := ["ATG", "ATT", "GTG"], stops := ["TTA", "TAA", "TAG", "TGA"] },
+    reassigned := [(c!"TTA", '*')],
+    starts := [c!"ATG", c!"ATT", c!"GTG"], stops := [c!"TTA", c!"TAA", c!"TAG", c!"TGA"] },
   { id := 24, name := "Rhabdopleuridae Mitochondrial",
-    reassigned := [("AGA", 'S'), ("AGG", 'K'), ("TGA", 'W')],
-    starts := ["ATG", "GTG", "CTG", "TTG"], stops := ["TAA", "TAG"] },
+    reassigned := [(c!"AGA", 'S'), (c!"AGG", 'K'), (c!"TGA", 'W')],
+    starts := [c!"ATG", c!"GTG", c!"CTG", c!"TTG"], stops := [c!"TAA", c!"TAG"] },
   { id := 25, name := "Candidate Division SR1 and Gracilibacteria",
-    reassigned := [("TGA", 'G')],
-    starts := ["ATG", "GTG", "TTG"], stops := ["TAA", "TAG"] },
+    reassigned := [(c!"TGA", 'G')],
+    starts := [c!"ATG", c!"GTG", c!"TTG"], stops := [c!"TAA", c!"TAG"] },
   { id := 26, name := "Pachysolen tannophilus Nuclear",
-    reassigned := [("CTG", 'A')],
-    starts := ["ATG", "CTG"], stops := ["TAA", "TAG", "TGA"] },
+    reassigned := [(c!"CTG", 'A')],
+    starts := [c!"ATG", c!"CTG"], stops := [c!"TAA", c!"TAG", c!"TGA"] },
   { id := 27, name := "Karyorelict Nuclear",
-    reassigned := [("TAA", 'Q'), ("TAG", 'Q'), ("TGA", 'W')],      -- TGA: W or stop
-    starts := ["ATG"], stops := ["TGA"] },
+    reassigned := [(c!"TAA", 'Q'), (c!"TAG", 'Q'), (c!"TGA", 'W')],      -- TGA: W or stop
+    starts := [c!"ATG"], stops := [c!"TGA"] },
   { id := 28, name := "Condylostoma Nuclear",
-    reassigned := [("TAA", 'Q'), ("TAG", 'Q'), ("TGA", 'W')],      -- all three: amino acid or stop
-    starts := ["ATG"], stops := ["TAA", "TAG", "TGA"] },
+    reassigned := [(c!"TAA", 'Q'), (c!"TAG", 'Q'), (c!"TGA", 'W')],      -- all three: amino acid or stop
+    starts := [c!"ATG"], stops := [c!"TAA", c!"TAG", c!"TGA"] },
   { id := 29, name := "Mesodinium Nuclear",
-    reassigned := [("TAA", 'Y'), ("TAG", 'Y')],
-    starts := ["ATG"], stops := ["TGA"] },
+    reassigned := [(c!"TAA", 'Y'), (c!"TAG", 'Y')],
+    starts := [c!"ATG"], stops := [c!"TGA"] },
   { id := 30, name := "Peritrich Nuclear",
-    reassigned := [("TAA", 'E'), ("TAG", 'E')],
-    starts := ["ATG"], stops := ["TGA"] },
+    reassigned := [(c!"TAA", 'E'), (c!"TAG", 'E')],
+    starts := [c!"ATG"], stops := [c!"TGA"] },
   { id := 31, name := "Blastocrithidia Nuclear",
-    reassigned := [("TGA", 'W'), ("TAA", 'E'), ("TAG", 'E')],      -- TAA, TAG: E or stop
-    starts := ["ATG"], stops := ["TAA", "TAG"] },
+    reassigned := [(c!"TGA", 'W'), (c!"TAA", 'E'), (c!"TAG", 'E')],      -- TAA, TAG: E or stop
+    starts := [c!"ATG"], stops := [c!"TAA", c!"TAG"] },
   { id := 33, name := "Cephalodiscidae Mitochondrial UAA-Tyr",
-    reassigned := [("TAA", 'Y'), ("TGA", 'W'), ("AGA", 'S'), ("AGG", 'K')],
-    starts := ["ATG", "GTG", "CTG", "TTG"], stops := ["TAG"] }]
+    reassigned := [(c!"TAA", 'Y'), (c!"TGA", 'W'), (c!"AGA", 'S'), (c!"AGG", 'K')],
+    starts := [c!"ATG", c!"GTG", c!"CTG", c!"TTG"], stops := [c!"TAG"] }]
 
 def ids : List Nat := codes.map (·.id)
 
 def code? (id : Nat) : Option Code := codes.find? (·.id == id)
 
-/-- residue of an upper-case DNA codon under the standard code -/
-def standardAA (codon : String) : Option Char :=
+/-- residue of an upper-case DNA codon (as a letter list) under the standard code -/
+def standardAA (codon : List Char) : Option Char :=
   (standard.find? fun e => e.2.contains codon).map (·.1)
 
 /-- residue of an upper-case DNA codon under code `id`: the reassignment if there is one, else the standard code -/
-def aa (id : Nat) (codon : String) : Option Char :=
+def aa (id : Nat) (codon : List Char) : Option Char :=
   match code? id with
   | none => none
   | some c =>
-    match c.reassigned.find? (·.1 == codon) with
+    match c.reassigned.find? (fun r => r.1 == codon) with
     | some r => some r.2
     | none => standardAA codon
 
-/-- complete in-frame codons of a string, upper-cased, as strings -/
-def codonsOf : List Char → List String
-  | a :: b :: c :: rest => String.ofList [a.toUpper, b.toUpper, c.toUpper] :: codonsOf rest
+/-- complete in-frame codons of a string, upper-cased -/
+def codonsOf : List Char → List (List Char)
+  | a :: b :: c :: rest => [a.toUpper, b.toUpper, c.toUpper] :: codonsOf rest
   | _ => []
 
 /-- the protein NCBI's code `id` assigns to a DNA string: one residue per complete in-frame codon
 (`none` if a codon is not an A/C/G/T triplet or the id is unknown) -/
 def translation (id : Nat) (s : List Char) : Option (List Char) :=
   (codonsOf s).mapM (aa id)
+
+def starts (id : Nat) : List (List Char) := match code? id with | some c => c.starts | none => []
+def stops (id : Nat) : List (List Char) := match code? id with | some c => c.stops | none => []
 
 end PolyVerif.Spec.Ncbi
